@@ -60,6 +60,7 @@ func Build(name string) *Scenario {
 		sc.Faults.Down, _ = time.ParseDuration(v)
 	}
 	_, sc.ClientGivesUp = p["noretry"]
+	_, sc.BadFirst = p["badfirst"]
 	if v, ok := p["rbuf"]; ok {
 		sc.ReadBufs = parseInts(v)
 	}
